@@ -8,9 +8,11 @@ CFG = {
         "Leptos.Park.Chan.C19_channel_notify_consumed",
         "Leptos.Park.Chan.C19_channel_one_shot",
         "Leptos.Park.Chan.C19_linearizable_outcomes",
+        "Leptos.Park.Await.C19_await_no_lost_wake",
+        "Leptos.Park.Await.C19_await_ready_after_store",
         "Leptos.Park.Await.C19_await_lost_wake_witness",
         "Leptos.Park.Await.C19_await_lost_wake_witness_value",
-        "Leptos.Park.Await.C19_await_no_lost_wake_full_false",
+        "Leptos.Park.Await.C19_await_no_lost_wake_old_full_false",
         "Leptos.Park.Await.C19_await_no_lost_wake_partial",
         "Leptos.Park.Memo.C19_memo_lock_order",
         "Leptos.Park.Memo.micro_blocked_needs",
@@ -56,9 +58,10 @@ CFG = {
         "text": "Lean 4 theorems over ALL interleavings (induction over the schedule, invariants) of the atomic-step model Model/Park: the notification channel "
                 "loses no notification for any number of senders/notifies/polls (C19_channel_no_lost_wake, _notify_consumed, _one_shot) and its one-shot outcomes are "
                 "linearizable up to spurious wake-ups; the memo update's lock graph is reactivity->value only, the user function runs lock-free and no interleaving of any "
-                "number of get/set threads deadlocks (C19_memo_lock_order), with the documented ReadGuard exception exhibited as a deadlock witness; the await path's full "
-                "no-lost-wake-up statement is REFUTED by a kernel-checked 7-entry interleaving (F-C19-1) and proved under the decidable hypothesis 'polls do not interleave' "
-                "(C19_await_no_lost_wake_partial). Further refutation witnesses found by the replay: concurrent memo get panics (F-C19-2), write lost during recomputation "
+                "number of get/set threads deadlocks (C19_memo_lock_order), with the documented ReadGuard exception exhibited as a deadlock witness; the await path's "
+                "no-lost-wake-up statement holds for ALL interleavings, any number of awaiters and all three future kinds (C19_await_no_lost_wake) after the repair of F-C19-1 "
+                "(fix: re-check `loading` after registering the waker); the pre-repair code is kept as `initOld` with the kernel-checked 7-entry witness as regression theorem "
+                "and its old partial theorem. Refutation witnesses found by the replay and left as known findings: concurrent memo get panics (F-C19-2), write lost during recomputation "
                 "(F-C19-3), signal read during write panics (F-C19-4). Every witness replays on the real code: two or three real OS threads are driven in lock-step through "
                 "named yield points (hook, cfg(leptos_verif)) and their outcomes compared with the compiled model on every enumerated interleaving. Partial: sequential "
                 "consistency is assumed (real atomics are Relaxed), AtomicWaker/async-lock trusted.",
